@@ -194,6 +194,17 @@ func raw(v interface{}) json.RawMessage {
 	return b
 }
 
+// BailExit is the exit status of a worker that ended itself on purpose after
+// reporting a case (e.g. because a script goroutine is stuck and would poison
+// later cases); the orchestrator resumes after that case without recording a crash.
+const BailExit = 77
+
+// Bail flushes everything reported so far and ends the process.
+func (c *Case) Bail() {
+	c.W.flush("ckpt")
+	os.Exit(BailExit)
+}
+
 // Begin records the input about to be executed in the in-flight file, so the
 // parent can attribute a process death to it. Call it before every execution
 // that might kill the process.
